@@ -39,6 +39,7 @@ thread_local! {
     static COUNTERS: Cell<Counters> = const { Cell::new(Counters { ticks: 0, execs: 0, commands: 0, max_idle_run: 0 }) };
     static IDLE_RUN: Cell<u64> = const { Cell::new(0) };
     static PROGRESS_SINCE_TICK: Cell<bool> = const { Cell::new(true) };
+    static ACTION_RUN: Cell<u64> = const { Cell::new(0) };
     static TEE_NORMAL: RefCell<Option<String>> = const { RefCell::new(None) };
     static TEE_DEBUGGER: RefCell<Option<String>> = const { RefCell::new(None) };
 }
@@ -63,6 +64,7 @@ pub fn set_fuel(fuel: Option<u64>) {
 }
 
 pub fn reset_counters() {
+    ACTION_RUN.with(|c| c.set(0));
     COUNTERS.with(|c| c.set(Counters::default()));
     IDLE_RUN.with(|c| c.set(0));
     PROGRESS_SINCE_TICK.with(|c| c.set(true));
@@ -82,6 +84,7 @@ pub fn take_debugger() -> String {
 
 /// Top of the run loop.
 pub fn tick() {
+    ACTION_RUN.with(|c| c.set(0));
     let mut c = COUNTERS.with(|c| c.get());
     c.ticks += 1;
     // An iteration counts as idle if nothing progressed since the previous tick.
@@ -146,13 +149,27 @@ pub fn note_command() {
         c.set(v);
     });
     PROGRESS_SINCE_TICK.with(|p| p.set(true));
+    ACTION_RUN.with(|c| c.set(0));
     spend_fuel();
 }
 
 /// At the top of every iteration of the debugger's own action loop (`next_action`): spends one
 /// unit of the step budget, so that a loop which neither returns nor reads a command is bounded.
 pub fn note_action_loop() {
-    spend_fuel();
+    let n = ACTION_RUN.with(|c| {
+        c.set(c.get() + 1);
+        c.get()
+    });
+    // Iterations of that loop without a run-loop iteration or a command in between: a handful
+    // in any working session
+    if n > 10_000 {
+        if ARMED.with(|a| a.get()) {
+            std::panic::panic_any(Stop::Fuel);
+        } else {
+            eprintln!("lace_verif: step budget exhausted");
+            std::process::exit(0xF0);
+        }
+    }
 }
 
 /// Directly before every `std::process::exit(code)` in the library.
